@@ -385,12 +385,86 @@ def run(ctx):
     _run_write_side(ctx, variants)
     _run_server_sequences(ctx, _srv)
     _run_exchange(ctx, _srv, variants)
+    _run_real_sockets(ctx)
 
 
 
 # =================================================================================================
 # whole executions: Model/LinesExec.lean (cstep / crun, srvLoop / srvFeed / srvEof, exchange)
 # =================================================================================================
+
+def _run_real_sockets(ctx):
+    """the one thing in-memory streams cannot show: what the kernel does with data that is still unread when the sender closes.  Over a
+    real localhost TCP connection and a real unix socket the client writes a burst and closes while the peer has not read yet; the peer
+    must still read every message, then a clean end-of-stream (a connection that is reset on close loses them)."""
+    import os
+    import tempfile
+
+    from gallia.transports.base import TargetURI
+    from gallia.transports.tcp import TCPLinesTransport
+    from gallia.transports.unix import UnixLinesTransport
+
+    rng = ctx.rng
+    msgs = [bytes([rng.randrange(256) for _ in range(rng.choice([1, 2, 7, 300]))]) for _ in range(20)]
+
+    async def one(kind):
+        got = []
+        done = asyncio.Event()
+
+        async def handler(r, w):
+            await asyncio.sleep(0.15)   # a peer that is busy: everything arrives (and the sender closes) before it reads
+            try:
+                while True:
+                    line = await r.readline()
+                    if not line.endswith(b"\n"):
+                        got.append("eos" if line == b"" else "tail " + line.hex())
+                        break
+                    got.append("msg " + line.strip().decode())
+            except Exception as e:  # noqa: BLE001
+                got.append("exc:" + type(e).__name__)
+            done.set()
+            w.close()
+
+        td = tempfile.mkdtemp(prefix="verif-c19-", dir="/var/tmp")
+        try:
+            if kind == "tcp-lines":
+                srv = await asyncio.start_server(handler, "127.0.0.1", 0)
+                port = srv.sockets[0].getsockname()[1]
+                tr = await TCPLinesTransport.connect(TargetURI(f"tcp-lines://127.0.0.1:{port}"))
+            else:
+                path = os.path.join(td, "s.sock")
+                srv = await asyncio.start_unix_server(handler, path)
+                tr = await UnixLinesTransport.connect(TargetURI(f"unix-lines://{path}"))
+            for m in msgs:
+                await tr.write(m)
+            await tr.close()
+            try:
+                await asyncio.wait_for(done.wait(), 10)
+            except (TimeoutError, asyncio.TimeoutError):
+                got.append("peer-never-saw-the-end")
+            srv.close()
+        finally:
+            import shutil
+            shutil.rmtree(td, ignore_errors=True)
+        return got
+
+    for kind in ("tcp-lines", "unix-lines"):
+        loop = asyncio.new_event_loop()
+        try:
+            got = loop.run_until_complete(one(kind))
+        finally:
+            loop.close()
+        want = ["msg " + m.hex() for m in msgs] + ["eos"]
+        ctx.ev()
+        ctx.kind("real-socket:" + kind)
+        ctx.nontrivial(("real-socket", kind))
+        if got != want:
+            i = next((k for k, (a, b) in enumerate(zip(got, want)) if a != b), min(len(got), len(want)))
+            ctx.disagree(f"lines-real-socket:{kind}:messages-lost-at-close", f"{kind} over a real socket: {len(msgs)} messages written, then close(); the peer (reading late) "
+                         f"got {len([g for g in got if g.startswith('msg')])} of them and then {got[i] if i < len(got) else 'nothing'} where {want[i]} was due",
+                         {"side": "real-socket", "scheme": kind, "messages": [m.hex() for m in msgs]}, impl=got[:25], model=want[:25], spec_violated=True,
+                         site="TCPTransport.connect / close")
+
 
 class _CountWriter(MemWriter):
     """MemWriter that counts close() calls"""
@@ -462,7 +536,12 @@ async def _client_seq(cls, scheme, ops):
                     res.append(f"write-refused:{type(e).__name__} {hx(writer.data[before:])}")
             elif op[0] == "request":
                 try:
-                    d = await tr.request(op[1], timeout=op[2])
+                    if op[2] is not None and (len(op[1]) + len(res)) % 2 == 1:
+                        # the caller's own deadline around request() instead of the transport's timeout parameter: the same
+                        # operation for the model - what did not arrive in time is not consumed and stays for the next read
+                        d = await asyncio.wait_for(tr.request(op[1], timeout=None), op[2])
+                    else:
+                        d = await tr.request(op[1], timeout=op[2])
                     r = _res(d)
                 except (TimeoutError, asyncio.TimeoutError):
                     r = "pending"
